@@ -176,7 +176,7 @@ Proof.
   unfold fetch_cmd.
   apply (good_bind P sn true sn true false false); [apply good_lift| |ble_tac|ble_tac]. intros pks.
   apply (good_bind P sn true sn true false false); [apply good_lift| |ble_tac|ble_tac]. intros eb.
-  unfold exchange.
+  unfold fetch_io, exchange.
   apply (good_bind P sn true sn true false false); [apply good_reset_buf| |ble_tac|ble_tac]. intros _.
   apply (good_try P sn true false false false false); [|intros e; apply good_handler_fetch|ble_tac|ble_tac].
   apply (good_bind P sn true false true false false); [apply good_ensure_connected| |ble_tac|ble_tac]. intros _.
@@ -199,6 +199,7 @@ Proof.
   unfold store_cmd.
   apply (good_bind P sn true sn true false false); [apply good_lift| |ble_tac|ble_tac]. intros eb.
   apply (good_bind P sn true sn true false false); [apply good_lift| |ble_tac|ble_tac]. intros cmds.
+  unfold store_io.
   apply (good_bind P sn true false true false false); [apply good_ensure_connected| |ble_tac|ble_tac]. intros _.
   unfold exchange.
   apply (good_bind P false true false true false false); [apply good_reset_buf| |ble_tac|ble_tac]. intros _.
